@@ -25,7 +25,7 @@ These mechanisms have already been used by earlier testers for this property, so
 
 Deliverables, all inside {wt}:
  1. The source change itself, left UNCOMMITTED in the worktree (so that `git -C {wt} diff` shows exactly the change; no other files modified under src/ or test/).
- 2. A demonstration program {wt}/demo/verif_demo.cpp (a small standalone C++14 program including the library headers from {wt}/src, compiled e.g. with `g++ -std=c++14 -I{wt}/src {wt}/demo/verif_demo.cpp -o /tmp/demo_{pid}_{tag} -lpcap -lpthread`; add -DENABLE_xxx or -I/usr/include/eigen3 if your change needs a build option, and say so) that exits 0 on the ORIGINAL code and exits non-zero (printing what went wrong) WITH your change. Check both: use `git -C {wt} stash` / `git -C {wt} stash pop` to flip between original and changed source (the demo file is untracked so it survives).
+ 2. A demonstration program {wt}/demo/verif_demo.cpp (a small standalone C++14 program including the library headers from {wt}/src, compiled e.g. with `g++ -std=c++14 -I{wt}/src {wt}/demo/verif_demo.cpp -o /tmp/demo_{pid}_{tag} -lpcap -lpthread`; add -DENABLE_xxx or -I/usr/include/eigen3 if your change needs a build option, and say so) that exits 0 on the ORIGINAL code and exits non-zero (printing what went wrong) WITH your change. Check both. Do NOT use `git stash` (the stash is shared between worktrees and other people work in sibling worktrees); to flip between original and changed source use `git -C {wt} diff -- src > /tmp/{pid}_{tag}.patch`, `git -C {wt} apply -R /tmp/{pid}_{tag}.patch` and `git -C {wt} apply /tmp/{pid}_{tag}.patch` (the demo file is untracked so it survives).
  3. Confirm the existing test-suite still passes with your change: `cmake -G Ninja -S {wt} -B /tmp/build_{pid}_{tag} -DCOMPILE_TESTS=ON && cmake --build /tmp/build_{pid}_{tag} -j4 && /tmp/build_{pid}_{tag}/test/rs_driver_test` - the same tests must pass as on the original code (4 tests that need data files fail on the original too: TestChanAngles.loadFromFile, TestChanAngles.memberLoadFromFile, TestDecoder.angles_from_file, TestParseTime.parseTimeYMD - ignore those). Remove /tmp/build_{pid}_{tag} and /tmp/demo_{pid}_{tag} when done.
 
 Always run compiled programs under `timeout` (e.g. `timeout 60 ./prog`). There is no network. Use at most 4 parallel compile jobs.
